@@ -49,6 +49,8 @@ def run(chk, repo):
     from ..records import Layouts
     chk.rule("C01-R5", "metadata pass: chunk offsets advance by the bytes actually read, for every records_per_chunk (C06-Q5)", 4)
     chk.attempt(trace_rpc, chk, repo)
+    from .common_rules import stateless_constructs
+    chk.attempt(stateless_constructs, chk, repo, "C05-F8")
     chk.attempt(load_rpc, chk, repo)
     chk.attempt(metadata_offsets, chk, repo, Layouts(repo), covered_by="trace_rpc", rules=("C01-R5",))
     from .c01 import chunk_sizes_spec
